@@ -35,7 +35,8 @@ def cpp_ret(r):
 
 
 def inst_name(t):
-    return t.name + ''.join(inst_name(a) for a in t.args)
+    # `unsigned char` is the only type name with a blank; names are identifiers
+    return t.name.replace(' ', '') + ''.join(inst_name(a) for a in t.args)
 
 
 def cap(n):
